@@ -189,6 +189,11 @@ def rule_c(ctx, idx, A, errcls):
             "command has a consumer, nothing is started, and run() returns normally with commands un-executed" % how,
         )
         return
+    # commands started from a list built beforehand (an execution order computed by a helper): whether that list holds every
+    # command is not something the loop shapes above can tell
+    for lp_ in [n for n in own_nodes(fi.node) if isinstance(n, ast.For) and isinstance(n.iter, ast.Name) and isinstance(n.target, ast.Name)]:
+        if any(isinstance(c, ast.Call) and isinstance(c.func, ast.Attribute) and c.func.attr == "run" and isinstance(c.func.value, ast.Name) and c.func.value.id == lp_.target.id for st in lp_.body for c in ast.walk(st)):
+            raise AnalysisError("C14.c: Program.run starts the commands of the precomputed list `%s`: cannot decide whether it holds every command" % lp_.iter.id)
     ctx.violate("C14.c", con, K.rel(fi), fi.node.lineno, "Program.run contains no loop over the command table that starts commands")
 
 
@@ -230,6 +235,51 @@ def rule_d(ctx, idx, A):
     ctx.count("computed_validation_attributes", n)
 
 
+def rule_g(ctx, idx, A):
+    ctx.rule(
+        "C14.g",
+        "A helper that walks the reference graph recursively marks a command before it descends: every self-recursive function "
+        "reachable from Program.run whose recursion is guarded by membership in a collection adds to that collection on every path "
+        "to the recursive call (a mark made after the descent never stops a reference loop: the walk recurses until the stack "
+        "overflows, and the re-entry guard of Command.run is never reached).",
+    )
+    reach, _p = idx.reachable([A.program_run])
+    cands = [f for f in reach if f is not A.run] + [g for f in reach for g in f.nested.values()]
+    n = 0
+    seen = set()
+    for f in cands:
+        if f in seen or not hasattr(f, "node"):
+            continue
+        seen.add(f)
+        rec = [c for c in own_nodes(f.node) if isinstance(c, ast.Call) and isinstance(c.func, ast.Name) and c.func.id == f.name and f.parent is not None]
+        rec += [c for c in own_nodes(f.node) if isinstance(c, ast.Call) and isinstance(c.func, ast.Attribute) and c.func.attr == f.name and isinstance(c.func.value, ast.Name) and c.func.value.id in ("self", "cls") and f.cls is not None and f.name not in ("run", "execute", "clean")]
+        if not rec:
+            continue
+        cfg = K.cfg_of(idx, f)
+        guards = [t for t in cfg.find("test") if isinstance(t.ast, ast.Compare) and len(t.ast.ops) == 1 and isinstance(t.ast.ops[0], (ast.In, ast.NotIn)) and isinstance(t.ast.comparators[0], ast.Name)]
+        reccalls = [c for c in cfg.find("call") if any(c.ast is r for r in rec)]
+        if not reccalls:
+            continue
+        if f.name == "flatten" or not guards:
+            # structural recursion over a finite nested value (lists inside lists) needs no guard; only graph walks do
+            if not any("commands" in K.src(x) or "requires" in K.src(x) or "dependents" in K.src(x) for x in own_nodes(f.node) if isinstance(x, (ast.Subscript, ast.Attribute))):
+                continue
+            ctx.violate("C14.g", "%s::marks-before-descending" % f.key, K.rel(f), f.node.lineno, "%s follows references recursively with no visited-guard at all: a reference loop recurses until the stack overflows" % f.qualname)
+            n += 1
+            continue
+        n += 1
+        ok = False
+        for g in guards:
+            coll = g.ast.comparators[0].id
+            marks = [c for c in cfg.find("call") if isinstance(c.ast.func, ast.Attribute) and c.ast.func.attr in ("add", "append", "update", "extend", "insert") and isinstance(c.ast.func.value, ast.Name) and c.ast.func.value.id == coll]
+            marks += [s_ for s_ in cfg.find("store") if s_.meta.get("subscript") and isinstance(s_.ast.value, ast.Name) and s_.ast.value.id == coll]
+            if marks and all(cfg.must_pass_through(cfg.entry, rc, set(marks)) for rc in reccalls):
+                ok = True
+        ctx.ob("C14.g", "%s::marks-before-descending" % f.key, K.rel(f), reccalls[0].line, ok, "the visited mark is made before the recursive call" if ok else
+               "%s recurses along references before it records the command it is working on (the membership test only sees commands whose walk has ended): on a reference loop it never stops, and a RecursionError escapes instead of %s" % (f.qualname, ERR))
+    ctx.count("recursive_graph_walks", n)
+
+
 def rule_f(ctx, idx, A):
     ctx.rule(
         "C14.f",
@@ -264,10 +314,17 @@ def run(ctx, idx):
     ctx.assume("Python recursion: a run() that re-enters execute without a guard overflows the stack; modelled, not executed")
     rule_a(ctx, idx, A, errcls)
     rule_b(ctx, idx, A, errcls)
-    rule_c(ctx, idx, A, errcls)
+    deferred = None
+    try:
+        rule_c(ctx, idx, A, errcls)
+    except AnalysisError as ex:  # the other rules still run; "cannot decide" is reported at the end unless one of them is violated
+        deferred = ex
     rule_d(ctx, idx, A)
+    rule_g(ctx, idx, A)
     rule_f(ctx, idx, A)
     from .C01 import rule_e
 
     rule_e(ctx, idx, A, rule="C14.e", text="Restated here because the re-entry guard can only fire on a reference that is actually read: a cycle closed through an input the consumer skips (a zero weight, a short-circuit over the list) is never entered and the cyclic model runs to completion.")
     ctx.count("functions", len(idx.funcs))
+    if deferred is not None:
+        raise deferred
